@@ -273,7 +273,9 @@ def obligations(tier, seed):
         "form[urlencoded]": ["a={}&b=1", "{}=1"],
         "parse_date": ["1 Jan {} 00:00 GMT", "{} Jan 2024 00:00 GMT", "1 {} 2024 00:00", "1 Jan 2024 {} GMT", "1 Jan 2024 00:00 {}",
                        "Mon, {} 2024 00:00:00 GMT", "Sunday, 06-Nov-{} 08:49:37 GMT", "29 Feb {}00 0:0",
-                       "1 Jan 99999999{} 0:0", "1 Jan 2024 99999999{}:0", "1 Jan 2024 0:0 +99999999999{}"],
+                       "1 Jan 99999999{} 0:0", "1 Jan 2024 99999999{}:0", "1 Jan 2024 0:0 +99999999999{}",
+                       # the ends of the calendar with a zone offset that crosses them
+                       "31 Dec 9999 23:5{} -0100", "31 Dec 9999 2{}:00 -1200", "1 Jan 100 0:{} +0100"],
     }
     for name, skels in SK.items():
         for skel in skels:
